@@ -733,6 +733,22 @@ func checkG1Sites(idx int) {
 		boolSite("verify", func() (bool, error) { return su.pk1.Verify(c.b, su.msg, su.h) })
 		boolSite("spock-proof1", func() (bool, error) { return crypto.SPOCKVerify(su.pk1, c.b, su.pk2, encS2) })
 		boolSite("spock-proof2", func() (bool, error) { return crypto.SPOCKVerify(su.pk2, encS2, su.pk1, c.b) })
+		// the other entry points that parse one signature for the same (key, message, hasher):
+		// the expected verdict is the same as for Verify
+		boolSite("verify-one-message", func() (bool, error) {
+			return crypto.VerifyBLSSignatureOneMessage([]crypto.PublicKey{su.pk1}, c.b, su.msg, su.h)
+		})
+		boolSite("verify-many-messages", func() (bool, error) {
+			return crypto.VerifyBLSSignatureManyMessages([]crypto.PublicKey{su.pk1}, c.b, [][]byte{su.msg}, []hash.Hasher{su.h})
+		})
+		boolSite("batch-verify", func() (bool, error) {
+			r, err := crypto.BatchVerifyBLSSignaturesOneMessage([]crypto.PublicKey{su.pk1}, []crypto.Signature{c.b}, su.msg, su.h)
+			if len(r) != 1 {
+				return false, fmt.Errorf("batch returned %d verdicts", len(r))
+			}
+			return r[0], err
+		})
+		boolSite("spock-verify-against-data", func() (bool, error) { return crypto.SPOCKVerifyAgainstData(su.pk1, c.b, su.msg, su.h) })
 		// byte-producing sites
 		bytesSite := func(site string, f func() (crypto.Signature, error), want func() []byte, tolerateOffGroup bool) {
 			var out crypto.Signature
@@ -1207,7 +1223,7 @@ func main() {
 	run.Set("rule", "Per decoder an explicit grammar of byte strings is enumerated exhaustively and each string is judged by an independent reference decoder. "+
 		"BLS/ECDSA private keys: every length 0..200 (truncation, tail, zero/garbage/leading-zero extension) + 10 boundary values + all 512 single-bit flips of order-1 and of a generated key. "+
 		"G2 (DecodePublicKey, DecodePublicKeyCompressed, DKG verification-vector elements 0 and 1): 8 flag settings x 18x18 grid of half values {0,1,p-1,p,p+1,2^381-1, coefficients of a valid point, of the generator, of a non-residue x, of a point outside G2, of g2+T13, of T13}; infinity/other headers with a non-zero byte (01,80,ff) at each of 96 positions; all 768 single-bit flips of each valid encoding in both byte orders; every length 0..200; off-group points. Each string is judged in the cited ZCash order and in the c0||c1 order. "+
-		"G1 sites (Verify, SPOCKVerify both positions, AggregateBLSSignatures single/first/last, BLSReconstructThresholdSignature position 0/1): the C01 candidate family (valid, 384 bit flips, -s, s+T3/T11/T33/cofactor, s+-g1, s+-H, 2s, x+p, 8 flag settings, uncompressed, infinity with a non-zero byte at each position with and without sign bit, every length 0..200). "+
+		"G1 sites (Verify, VerifyBLSSignatureOneMessage, VerifyBLSSignatureManyMessages, BatchVerifyBLSSignaturesOneMessage, SPOCKVerifyAgainstData, SPOCKVerify both positions, AggregateBLSSignatures single/first/last, BLSReconstructThresholdSignature position 0/1): the C01 candidate family (valid, 384 bit flips, -s, s+T3/T11/T33/cofactor, s+-g1, s+-H, 2s, x+p, 8 flag settings, uncompressed, infinity with a non-zero byte at each position with and without sign bit, every length 0..200). "+
 		"ECDSA public keys on P-256 and secp256k1: raw 64-byte = all pairs over {0,1,p-1,p,p+1,2^256-1, coordinates of valid points, non-residue x, x+p aliases}; compressed = all 256 prefix bytes x the same x values; all single-bit flips of two valid encodings; every length 0..200; SEC1 65-byte forms. "+
 		"Produced objects (generated, decoded, aggregated, removed, identity, threshold-keygen, Feldman-VSS and Joint-Feldman outputs, signatures, PoPs, SPoCK proofs, reconstructed signatures) are re-decoded and compared with Equals and bytes. "+
 		"A case is distinct/non-trivial when it is a distinct byte string of the decoder's nominal length (it passes the length gate) or a distinct produced object.")
